@@ -112,6 +112,10 @@ def run(ctx):
     for lineno, rules in xv:
         rec = V.read_line(xobs, lineno)
         for rule in rules:
+            if rec["ev"] == "order":
+                V.report(ctx, rule, rec, "two rewrite routes match Host %s, the one listed first is '%s'; the request reached backend '%s' and the sign-in redirect names the provider of '%s'"
+                         % ((rec.get("conc") or {}).get("host"), rec["first"], rec["reached"], rec["slugof"]), {"kind": "xuse", "record": rec})
+                continue
             V.report(ctx, rule, rec, "a session bound to Host %s (%s) presented on Host %s was forwarded to backend %s (status %d); the two spellings route to different upstreams"
                      % (rec["forhost"], rec["minted"], rec["athost"], rec["reached"], rec["status"]), {"kind": "xuse", "record": rec})
     ctx.cov["cross_spelling_probes"] = xs["executed"]
